@@ -181,6 +181,8 @@ func (prop) Generate(r *prng.Rand, phase string) any {
 	}
 	cfg := mgeom.SwarmCfg(r, layouts)
 	if phase == "enum" {
+		// every fault position is enumerated: keep the messages short
+		cfg.ExactCoords, cfg.ExactParts = 0, 0
 		if cfg.MaxCoords > 5 {
 			cfg.MaxCoords = 5
 		}
